@@ -32,7 +32,7 @@ NSHARDS = 8
 def template(draw):
     from hypothesis import strategies as st
 
-    kind = draw(st.sampled_from(["nonlocal", "nonlocal", "leak", "leak", "let", "mixed"]))
+    kind = draw(st.sampled_from(["nonlocal", "nonlocal", "leak", "leak", "let", "mixed", "let-nest", "let-nest", "require", "require"]))
     pick = lambda lo, hi: draw(st.lists(st.sampled_from(NAMES), min_size=lo, max_size=hi, unique=True))
     lines = []
     big = 0
@@ -76,6 +76,47 @@ def template(draw):
         lines.append("(setv R4 (let [%s] (defn g [] (nonlocal %s) %s [%s]) (g)))" % (
             " ".join("%s %d" % (n, i) for i, n in enumerate(names)), " ".join(names), " ".join("(setv %s (* %s 2))" % (n, n) for n in names), " ".join(names)))
         big = max(big, len(names))
+    if kind == "let-nest":
+        # (nonlocal a b ...) written inside lets nested 1..3 deep within one function; the names live in the enclosing function,
+        # in lets around the inner function, or in the nested lets themselves
+        outer = pick(2, 6)
+        around = [n for n in pick(0, 3) if n not in outer]
+        decl = list(draw(st.permutations(outer + around)))[: draw(st.integers(2, len(outer + around)))]
+        depth = draw(st.integers(1, 3))
+        body = "(nonlocal %s) %s [%s]" % (" ".join(decl), " ".join("(setv %s (+ %s 1))" % (n, n) for n in decl), " ".join(decl))
+        for d in range(depth):
+            body = "(let [u%d %d] %s)" % (d, d, body)
+        fn = "(defn inner [] %s)" % body
+        if around:
+            fn = "(let [%s] %s (inner))" % (" ".join("%s %d" % (n, 70 + i) for i, n in enumerate(around)), fn)
+        else:
+            fn += " (inner)"
+        lines.append("(defn outer2 [] (setv %s) %s)" % (" ".join("%s %d" % (n, 20 + i) for i, n in enumerate(outer)), fn))
+        lines.append("(setv R5 (outer2))")
+        big = max(big, len(decl))
+    if kind == "require":
+        mod = draw(st.sampled_from(["vf.c13_macros", "vf.c13_macros_exp"]))
+        pool = ["alpha", "beta", "gamma-ray", "delta", "epsilon", "zeta"]
+        shape = draw(st.sampled_from(["star", "star", "names", "as", "bare"]))
+        if shape == "star":
+            spec = mod + " *"
+        elif shape == "names":
+            ns = list(draw(st.permutations(pool)))[: draw(st.integers(2, 6))]
+            spec = "%s [%s]" % (mod, " ".join(n if draw(st.booleans()) else "%s :as q%d" % (n, i) for i, n in enumerate(ns)))
+        elif shape == "as":
+            spec = mod + " :as P"
+        else:
+            spec = mod
+        place = draw(st.sampled_from(["defn", "defn", "class", "module", "fn-in-let"]))
+        if place == "defn":
+            lines.append("(defn rq [] (require %s) 1)" % spec)
+        elif place == "class":
+            lines.append("(defclass RQ [] (require %s) (setv v 1))" % spec)
+        elif place == "fn-in-let":
+            lines.append("(let [w 1] (defn rq2 [] (require %s) w))" % spec)
+        else:
+            lines.append("(require %s)" % spec)
+        big = max(big, 3)
     return "\n".join(lines), big
 
 
